@@ -235,7 +235,9 @@ pub struct MemBuildRun {
 pub fn build_bound(registry: Option<(usize, usize)>, fanout: u32, keylen: u32, after_new: i64) -> i64 {
     let cells = match registry {
         Some((rows, cols)) => (rows * cols) as i64,
-        None => std::cmp::max(1, after_new / 48),
+        // (not below the shipped 10 000 x 2: a constructor that takes over a
+        // table parked by an earlier builder of the thread allocates nothing)
+        None => std::cmp::max(20_000, after_new / 48),
     };
     let per_vec = 24 * std::cmp::max(4, 2 * fanout as i64);
     let l = keylen as i64;
